@@ -14,9 +14,9 @@ theorem overlapNoHc_some (gram : String → String → α) (cj : α → α) (hc 
     (h : MPOX.overlapNoHc gram cj hc a b n hs = some v) :
     n ≠ 0 ∧ ∃ la lb ra rb, a.m.idL.getD 0 none = some la ∧ b.m.idL.getD 0 none = some lb ∧
       a.m.idR.getD ((n - 1) % a.m.L + 1) none = some ra ∧ b.m.idR.getD ((n - 1) % b.m.L + 1) none = some rb ∧
-      v = MPOM.vecAt ((List.range n).foldl (fun v i =>
-        MPOM.tmStep (if hs then (fun x y => gram (hc x) y) else gram) (if hs then id else cj)
-          (a.m.layers.getD (i % a.m.L) []) (b.m.layers.getD (i % b.m.L) []) v) [((la, lb), 1)]) (ra, rb) := by
+      v = MPOM.vecAt ((List.range n).foldl (fun v i => KVec.compress
+        (MPOM.tmStep (if hs then (fun x y => gram (hc x) y) else gram) (if hs then id else cj)
+          (a.m.layers.getD (i % a.m.L) []) (b.m.layers.getD (i % b.m.L) []) v)) [((la, lb), 1)]) (ra, rb) := by
   unfold MPOX.overlapNoHc at h
   split at h
   · exact absurd h (by simp)
@@ -236,6 +236,41 @@ theorem distRaw_some (gram : String → String → α) (cj : α → α) (hc : St
     exact ⟨ov, s, o, h1, h2, h3, h.1.symm, h.2.symm⟩
   · exact absurd h (by simp)
 
+/-- when the three overlaps of `distRaw` answer for an explicit `num_sites = n` (which is `L` for finite
+operands), all three are taken on the window of `n` sites -/
+theorem overlaps_windows (gram : String → String → α) (cj : α →+* α) (hc : String → String)
+    (hcj : ∀ x, cj (cj x) = x) (hhc : ∀ x, hc (hc x) = x)
+    (hgram : ∀ x y, gram (hc x) (hc y) = cj (gram x y))
+    (a b : MPOX α) (n : Nat) (hfin : a.finite = true → n = a.m.L) (ov s o : α)
+    (h1 : MPOX.overlap gram cj hc a b (some n) = some ov)
+    (h2 : MPOX.overlap gram cj hc a a (some n) = some s)
+    (h3 : MPOX.overlap gram cj hc b b (some n) = some o) :
+    ov = MPOM.frob gram cj (a.window hc cj n) (b.window hc cj n) ∧
+    s = MPOM.frob gram cj (a.window hc cj n) (a.window hc cj n) ∧
+    o = MPOM.frob gram cj (b.window hc cj n) (b.window hc cj n) := by
+  obtain ⟨k1, _, hk1, _, _⟩ := overlap_some gram cj hc a b _ ov h1
+  obtain ⟨k2, _, hk2, _, _⟩ := overlap_some gram cj hc a a _ s h2
+  obtain ⟨k3, _, hk3, _, _⟩ := overlap_some gram cj hc b b _ o h3
+  have f1 := overlap_flags_spec gram cj hc hcj hhc hgram a b _ k1 ov hk1 h1
+  have f2 := overlap_flags_spec gram cj hc hcj hhc hgram a a _ k2 s hk2 h2
+  have f3 := overlap_flags_spec gram cj hc hcj hhc hgram b b _ k3 o hk3 h3
+  have e1 : k1 = n := by
+    rcases overlapNumSites_some a b _ k1 hk1 with ⟨ha, _, _, hk⟩ | ⟨_, _, hk⟩
+    · rw [hk, hfin ha]
+    · exact hk
+  have e2 : k2 = n := by
+    rcases overlapNumSites_some a a _ k2 hk2 with ⟨ha, _, _, hk⟩ | ⟨_, _, hk⟩
+    · rw [hk, hfin ha]
+    · exact hk
+  have e3 : k3 = n := by
+    rcases overlapNumSites_some b b _ k3 hk3 with ⟨hb, _, _, hk⟩ | ⟨_, _, hk⟩
+    · rcases overlapNumSites_some a b _ k1 hk1 with ⟨ha, _, hL, _⟩ | ⟨_, hb', _⟩
+      · rw [hk, hfin ha, hL]
+      · rw [hb] at hb'; exact absurd hb' (by simp)
+    · exact hk
+  rw [e1] at f1; rw [e2] at f2; rw [e3] at f3
+  exact ⟨f1, f2, f3⟩
+
 /-- when `is_equal` answers, all three overlaps are taken on the window of `isEqualNumSites` sites -/
 theorem isEqual_windows (gram : String → String → α) (cj : α →+* α) (hc : String → String)
     (hcj : ∀ x, cj (cj x) = x) (hhc : ∀ x, hc (hc x) = x)
@@ -246,30 +281,8 @@ theorem isEqual_windows (gram : String → String → α) (cj : α →+* α) (hc
     (h3 : MPOX.overlap gram cj hc b b (some (MPOX.isEqualNumSites a b mr)) = some o) :
     ov = MPOM.frob gram cj (a.window hc cj (MPOX.isEqualNumSites a b mr)) (b.window hc cj (MPOX.isEqualNumSites a b mr)) ∧
     s = MPOM.frob gram cj (a.window hc cj (MPOX.isEqualNumSites a b mr)) (a.window hc cj (MPOX.isEqualNumSites a b mr)) ∧
-    o = MPOM.frob gram cj (b.window hc cj (MPOX.isEqualNumSites a b mr)) (b.window hc cj (MPOX.isEqualNumSites a b mr)) := by
-  obtain ⟨k1, _, hk1, _, _⟩ := overlap_some gram cj hc a b _ ov h1
-  obtain ⟨k2, _, hk2, _, _⟩ := overlap_some gram cj hc a a _ s h2
-  obtain ⟨k3, _, hk3, _, _⟩ := overlap_some gram cj hc b b _ o h3
-  have f1 := overlap_flags_spec gram cj hc hcj hhc hgram a b _ k1 ov hk1 h1
-  have f2 := overlap_flags_spec gram cj hc hcj hhc hgram a a _ k2 s hk2 h2
-  have f3 := overlap_flags_spec gram cj hc hcj hhc hgram b b _ k3 o hk3 h3
-  have hfin := (isEqualNumSites_spec a b mr).1
-  have e1 : k1 = MPOX.isEqualNumSites a b mr := by
-    rcases overlapNumSites_some a b _ k1 hk1 with ⟨ha, _, _, hk⟩ | ⟨_, _, hk⟩
-    · rw [hk, hfin ha]
-    · exact hk
-  have e2 : k2 = MPOX.isEqualNumSites a b mr := by
-    rcases overlapNumSites_some a a _ k2 hk2 with ⟨ha, _, _, hk⟩ | ⟨_, _, hk⟩
-    · rw [hk, hfin ha]
-    · exact hk
-  have e3 : k3 = MPOX.isEqualNumSites a b mr := by
-    rcases overlapNumSites_some b b _ k3 hk3 with ⟨hb, _, _, hk⟩ | ⟨_, _, hk⟩
-    · rcases overlapNumSites_some a b _ k1 hk1 with ⟨ha, _, hL, _⟩ | ⟨_, hb', _⟩
-      · rw [hk, hfin ha, hL]
-      · rw [hb] at hb'; exact absurd hb' (by simp)
-    · exact hk
-  rw [e1] at f1; rw [e2] at f2; rw [e3] at f3
-  exact ⟨f1, f2, f3⟩
+    o = MPOM.frob gram cj (b.window hc cj (MPOX.isEqualNumSites a b mr)) (b.window hc cj (MPOX.isEqualNumSites a b mr)) :=
+  overlaps_windows gram cj hc hcj hhc hgram a b _ (isEqualNumSites_spec a b mr).1 ov s o h1 h2 h3
 
 theorem isEqual_decides (gram : String → String → α) (cj : α →+* α) (hc : String → String)
     (hcj : ∀ x, cj (cj x) = x) (hhc : ∀ x, hc (hc x) = x)
@@ -311,6 +324,55 @@ theorem isEqual_accepts (gram : String → String → α) (cj : α →+* α) (hc
   rw [hz] at hd
   rw [hd]
   exact decide_eq_true hnorm
+
+/-- the default window of `overlap` is `L` for finite operands -/
+theorem overlapNumSites_finite {α : Type} (a b : MPOX α) (ns : Option Nat) (n : Nat)
+    (h : MPOX.overlapNumSites a b ns = some n) (ha : a.finite = true) : n = a.m.L := by
+  unfold MPOX.overlapNumSites at h
+  cases hb : b.finite <;> simp only [ha, hb] at h
+  · simp at h
+  · simp only [Bool.and_self, if_true] at h
+    split at h
+    · simp only [Option.some.injEq] at h
+      exact h.symm
+    · exact absurd h (by simp)
+
+theorem distance_spec [Neg ρ] (gram : String → String → α) (cj : α →+* α) (hc : String → String)
+    (hcj : ∀ x, cj (cj x) = x) (hhc : ∀ x, hc (hc x) = x)
+    (hgram : ∀ x y, gram (hc x) (hc y) = cj (gram x y))
+    (re : α → ρ) (tol : ρ) (a b : MPOX α) (numSites : Option Nat) (n : Nat) (d : α)
+    (hn : MPOX.overlapNumSites a b numSites = some n)
+    (h : MPOX.distance gram cj hc re tol a b numSites = some d) :
+    let A := a.window hc cj n
+    let B := b.window hc cj n
+    d = MPOM.frob gram cj A A - (MPOM.frob gram cj A B + cj (MPOM.frob gram cj A B))
+          + MPOM.frob gram cj B B := by
+  intro A B
+  unfold MPOX.distance at h
+  rw [hn] at h
+  simp only at h
+  split at h
+  · rename_i d' m hd
+    obtain ⟨ov, s, o, h1, h2, h3, ed, _⟩ := distRaw_some gram cj hc a b _ d' m hd
+    obtain ⟨f1, f2, f3⟩ := overlaps_windows gram cj hc hcj hhc hgram a b n
+      (overlapNumSites_finite a b numSites n hn) ov s o h1 h2 h3
+    split at h
+    · exact absurd h (by simp)
+    · simp only [Option.some.injEq] at h
+      rw [← h, ed, f1, f2, f3]
+  · exact absurd h (by simp)
+
+/-- the value of `distance` is literally `‖A − B‖²` -/
+theorem distance_expand (gram : String → String → α) (cj : α →+* α) (hcj : ∀ x, cj (cj x) = x)
+    (hsym : ∀ x y, gram y x = cj (gram x y)) (A B : Sym α) :
+    MPOM.frob gram cj (A ++ Sym.smul (-1) B) (A ++ Sym.smul (-1) B)
+      = MPOM.frob gram cj A A - (MPOM.frob gram cj A B + cj (MPOM.frob gram cj A B)) + MPOM.frob gram cj B B ∧
+    MPOM.frob gram cj B A = cj (MPOM.frob gram cj A B) := by
+  have hsw := frob_swap gram cj hcj hsym A B
+  refine ⟨?_, hsw⟩
+  rw [frob_append_left, frob_append_right, frob_append_right, frob_smul_left, frob_smul_left,
+    frob_smul_right, frob_smul_right, hsw, map_neg, map_one]
+  ring
 
 theorem isHermitian_spec (gram : String → String → α) (cj : α →+* α) (hc : String → String)
     (absSq : α → ρ) (epsSq : ρ) (a : MPOX α) (mr : MaxRange) (n : Nat) :
